@@ -132,6 +132,7 @@ structure Env where
   params : List Var := []
   allocaBottom : Option Var := none
   offsets : List (Int × Int) := []          -- object id ↦ `var->offset`
+  deriving DecidableEq
 
 /-- `var->offset`.  An object that `assign_lvar_offsets` did not visit (a global, or a local that
     is not on the function's `locals` list) still has the 0 that `calloc` put there. -/
